@@ -147,6 +147,16 @@ def design_level(pid, tier, seed, scale):
         stats.append(st)
         if not ok and not st.get('timed_out'):
             mach.append(('mc:' + cfg, 'TLC reports an error in the contract model:\n' + out[-3000:]))
+    if P.get('apalache') and tier == 'thorough':
+        # unbounded complement of a mechanism model: an inductive invariant discharged by Apalache
+        try:
+            aok, det = tlc.apalache_inductive(*P['apalache'])
+        except Exception as x:      # noqa
+            aok, det = False, [{'error': repr(x)[:800]}]
+        stats.append({'cfg': 'apalache inductive invariant %s of %s' % (P['apalache'][2], P['apalache'][0]),
+                      'module': P['apalache'][0], 'exhaustive': aok, 'obligations': det, 'states': 0, 'distinct': 0})
+        if not aok:
+            mach.append(('apalache:' + P['apalache'][0], 'inductive invariant not discharged: %s' % det))
     if P.get('json_mc'):
         for cfg in ('JsonVal_pairs.cfg',):
             ok, st, out = tlc.model_check(cfg, 'JsonValMC.tla', workers=16, timeout=600, heap='8g')
